@@ -299,6 +299,47 @@ CR_ALLOW = ConversionRetort(recipe=[allow_unlinked_optional("x", "y", "z")])
 CR_FORBID = ConversionRetort(recipe=[forbid_unlinked_optional("x", "y", "z")])
 CONV_ALLOW = [CR_ALLOW.get_converter(US, UD) for _ in range(2)]
 FORBID_REFUSED = [not _conv_ok(lambda: CR_FORBID.get_converter(US, UD)) for _ in range(2)]
+# classes whose members are EQUAL (and hash-equal) across classes: IntEnum / str-mixin enums / IntFlag with the same values, served by one provider in one retort
+class WA(enum.IntEnum):
+    MON = 1
+    TUE = 2
+class WB(enum.IntEnum):
+    LOW = 1
+    HIGH = 2
+class SA(str, enum.Enum):
+    P1 = "a"
+    P2 = "b"
+class SB(str, enum.Enum):
+    Q1 = "a"
+    Q2 = "b"
+class IFA(enum.IntFlag):
+    R = 1
+    W_ = 2
+class IFB(enum.IntFlag):
+    X = 1
+    Y = 2
+for _v in range(4): IFA(_v); IFB(_v)
+EQ_CASES = []
+for _order in itertools.permutations((WA, WB, SA, SB, IFA, IFB)):
+    if _order.index(WA) > 2 and _order.index(SA) > 2: continue            # a sample of 6! orders that varies which class of each pair comes first
+    _r = Retort(recipe=[enum_by_name(), flag_by_member_names()])
+    EQ_CASES.append({E: (_r.get_loader(E), _r.get_dumper(E)) for E in _order})
+    if len(EQ_CASES) >= 40: break
+NEQ = len(EQ_CASES)
+def equal_members(ci, mi):
+    got = EQ_CASES[pick(ci, NEQ)]
+    mi = 1 if mi else 0
+    for E in (WA, WB, SA, SB):
+        member = list(E)[mi]
+        ld, dp = got[E]
+        if dp(member) != member.name or ld(member.name) is not member: return False
+    for F in (IFA, IFB):
+        ld, dp = got[F]
+        member = list(F)[mi]
+        if dp(member) != [member.name] or ld([member.name]) is not member: return False
+        if sorted(dp(F(3))) != sorted(m.name for m in F) or ld([m.name for m in F]) != F(3): return False
+    return True
+
 def multi(ci, rep, mi, v):
     got = MULTI_CASES[pick(ci, NMC)]
     rep = 1 if rep else 0
@@ -362,5 +403,8 @@ def chk_identities(n, l0, l1, l2):
           family="providers built from several predicates (merged with |) serve each predicate on every request, in every order of first use",
           bounds="enum_by_name(EA, EB) + flag_by_member_names(FA, FB) in one retort: 24 orders of first use x first / repeated request x 2 members; a third enum and int stay untouched; "
                  "allow_unlinked_optional / forbid_unlinked_optional with three predicates, asked twice; symbolic int")
+    mm.ob("equal_members_across_classes", "ci: int, mi: bool", "return equal_members(ci, mi)", pre=["0 <= ci < NEQ"], timeout=tmo,
+          family="one enum_by_name / flag_by_member_names provider serving classes whose members are equal across classes (IntEnum, str enums, IntFlag with the same values)",
+          bounds="3 pairs of look-alike classes on one retort, up to 40 orders of first use, every member: dumped by its own names, loaded to its own members")
     return Plan("C10", [m, me, mm], assumptions=["CrossHair's regex model for the fixed pattern list"],
                 bounds={"stack depth": "4", "chain length": "3"}, outside=["arbitrary user regexes", "predicate nesting > 2"])
